@@ -125,6 +125,7 @@ enum { K_NONE = 0, K_PUSH = 1, K_POP = 2, K_BPOP = 3, K_TRYPUSH = 4, K_ABORT = 5
 #define IS_POP(k) ((k) == K_POP || (k) == K_BPOP)
 struct op { int used, kind, done, ok; unsigned inv, res, val; } H[MAXOPS];   /* index = tid*2 + slot */
 unsigned clk;
+int a_retried;
 void vp_inv(u32 tid, u32 slot, u32 kind, u32 val) { struct op* o = &H[tid * 2 + slot]; o->used = 1; o->kind = kind; o->val = val; o->inv = ++clk; }
 void vp_res(u32 tid, u32 slot, u32 ok, u32 val) {
   struct op* o = &H[tid * 2 + slot]; o->done = 1; o->ok = ok; o->res = ++clk;
@@ -209,7 +210,10 @@ int main(void) {
   vp_cur = 0; VP_RUNMAX(THR(a))      /* scenario option: thread a first runs until it finishes or blocks (e.g. sleeps in a full/empty queue) */
 #endif
   for (int r = 0; r < ROUNDS; r++) {
-    VP_RUNT(THR(a), 0) VP_RUNT(THR(b), 1)
+    VP_RUNT(THR(a), 0)
+    /* ghost: thread a ended its slice at the back edge of a retry (data) loop, e.g. the CAS loop of try_push / try_pop failed and goes round */
+    if (!THR(a_fin) && !THR(a_blocked) && THR(a_pc) != THR(a_cs)) a_retried = 1;
+    VP_RUNT(THR(b), 1)
 #if NT == 3
     VP_RUNT(THR(c), 2)
 #endif
@@ -287,9 +291,14 @@ int main(void) {
     VP_ASSERT((long)vp_q_size(&Q) == (long)(expect - ndrained), "size() wrong after the drain");
     if (expect < DRAIN_N) VP_ASSERT(vp_q_invalid(&Q) == 0 && vp_q_head(&Q) == vp_q_tail(&Q), "tickets or invalid entries left after the queue was drained empty");
   }
-  VP_ASSERT(linearizable(), "history is not linearizable to a sequential FIFO queue");
+  VP_ASSERT(linearizable(), "history is not linearizable to a sequential (bounded) FIFO queue: no order of the concurrent calls that respects real time explains the results (e.g. try_pop said empty / try_push said full although the queue never was during the call, FIFO or real-time push order broken, push took effect on a full queue)");
 #if ITEMS_PER_PAGE == 1
   if (PRE_PUSH - PRE_POP + npush - npop_ok <= DRAIN_N) VP_ASSERT(live_allocs == (BOUNDED ? 0 : 1), "page leak or double free: live allocations after drain != 1 (the queue representation)");
+#endif
+#ifdef REQ_RETRY_A
+  /* scenario option: the reachability witness must come from a run in which thread a's retry loop went round at least once and the call
+     completed (all assertions above are still checked for every run) */
+  __CPROVER_assume(a_retried);
 #endif
   VP_REACHED();
   return 0;
